@@ -483,6 +483,13 @@ func runC07(c *ctx) error {
 				}
 			}
 		}
+		// ---- oracle 1c: recursion is reported only for graphs that have a cycle (DFS over content and alias edges) ----
+		if strings.HasPrefix(got, "err:recursion") {
+			c.res.OracleChecks++
+			if nodeGraphAcyclic(&root) {
+				c.res.Fail(core.OracleFailure{What: "an acyclic document is rejected as infinitely recursive", Input: desc, Got: fmt.Sprint(res.err)})
+			}
+		}
 		// ---- oracle 1b: an alias in key position gives the key the aliased scalar gives when written in place ----
 		if surgery == "" && g.aliasKey {
 			var inl yaml.Node
@@ -639,6 +646,39 @@ func runC07(c *ctx) error {
 	c.res.ModelRequests = total
 	c.res.Mismatches = mm
 	return err
+}
+
+// nodeGraphAcyclic: no node is reachable from itself through content and alias edges.
+func nodeGraphAcyclic(root *yaml.Node) bool {
+	const (
+		grey  = 1
+		black = 2
+	)
+	state := map[*yaml.Node]int{}
+	var visit func(n *yaml.Node) bool
+	visit = func(n *yaml.Node) bool {
+		if n == nil {
+			return true
+		}
+		switch state[n] {
+		case grey:
+			return false
+		case black:
+			return true
+		}
+		state[n] = grey
+		if n.Kind == yaml.AliasNode && !visit(n.Alias) {
+			return false
+		}
+		for _, ch := range n.Content {
+			if !visit(ch) {
+				return false
+			}
+		}
+		state[n] = black
+		return true
+	}
+	return visit(root)
 }
 
 // normNums: yaml.v3 and DecodeYAML agree on scalar typing; normalise container types only.
